@@ -29,6 +29,37 @@ def opOfJson (j : Json) : Except String Op := do
   | "call" => pure .call
   | _ => throw s!"bad op {k}"
 
+/-- an operation of the multi-quantizer system: {"op":"local","i":n,"o":{single-quantizer op}},
+    {"op":"upd_caller","i":n,"k":n}, {"op":"upd_quant","i":n,"j":n}, {"op":"assign","k":n,"v":rat} -/
+def mopOfJson (j : Json) : Except String MOp := do
+  let k ← getStr j "op"
+  match k with
+  | "local" => pure (.local (← getNat j "i") (← opOfJson (← j.getObjVal? "o")))
+  | "upd_caller" => pure (.updateFromCaller (← getNat j "i") (← getNat j "k"))
+  | "upd_quant" => pure (.updateFromQuant (← getNat j "i") (← getNat j "j"))
+  | "assign" => pure (.assign (← getNat j "k") (← getRat j "v"))
+  | _ => throw s!"bad multi op {k}"
+
+def sysToJson (rd : Rnd) (s : Sys) (nq nw : Nat) : Json :=
+  Json.mkObj [
+    ("qs", Json.arr ((List.range nq).map fun i =>
+        Json.mkObj (qstateToJson (s.q i) ++ [("eff", ratToJson ((s.q i).eff rd))])).toArray),
+    ("ws", Json.arr ((List.range nw).map fun k => ratToJson (s.w k)).toArray)]
+
+/-- quantized_relu configuration: bits, integer, slope_log (null = slope 0, k = 2^-k), upper
+    (null = no relu_upper_bound, else the float32 bound as a rational), qclip -/
+def reluCfgOfJson (cfg : Json) : Except String ReluCfg := do
+  let slo : Option Nat := match cfg.getObjVal? "slope_log" with
+    | .ok .null => none
+    | .ok v => (v.getNat?).toOption
+    | .error _ => none
+  let up : Option Rat ← match cfg.getObjVal? "upper" with
+    | .ok .null => pure none
+    | .ok v => do pure (some (← ratOfJson v))
+    | .error _ => pure none
+  pure { bits := ← getInt cfg "bits", integer := ← getInt cfg "integer", slopeLog := slo,
+         upper := up, qclip := ← getBool cfg "qclip" }
+
 def qobjOfJson (j : Json) : Except String QObj := do
   let k ← getStr j "kind"
   let kind ← match k with
@@ -126,6 +157,22 @@ def handle (j : Json) : Except String Json := do
       ("spec", Json.arr (spec.map ratToJson).toArray),
       ("model_exact", Json.arr (modelExact.map ratToJson).toArray),
       ("f_eff", ratToJson (st.asF rd))]
+  | "mix_many" =>
+    -- one (s, q) vector under several factor storages: [{"store","v"}, …] → per storage the float32
+    -- evaluation (as op "mix", without the exact-reading extras)
+    let form ← getStr j "form"
+    let ss ← getRatList j "s"
+    let qs ← getRatList j "q"
+    let stsJ ← (← j.getObjVal? "stores").getArr?
+    let sts ← stsJ.toList.mapM storeOfJson
+    let pairs := ss.zip qs
+    let ys := sts.map fun st =>
+      Json.arr (pairs.map fun (s, q) =>
+        ratToJson (match form with
+          | "linear" => mixLinearF rd s q st
+          | "ste" => mixF rd s q st true
+          | _ => mixF rd s q st false)).toArray
+    pure <| Json.mkObj [("ys", Json.arr ys.toArray)]
   | "storage" =>
     let s0 ← qstateOfJson (← j.getObjVal? "init")
     let opsJ ← (← j.getObjVal? "ops").getArr?
@@ -141,6 +188,52 @@ def handle (j : Json) : Except String Json := do
       ("any_raise", Json.bool (QState.anyRaise rd s0 ops)),
       ("last_write", match lastWrite ops with | none => Json.null | some v => ratToJson v),
       ("init_eff", ratToJson (s0.eff rd))]
+  | "multi" =>
+    -- several quantizers + caller-owned variables, interleaved history (Sys.step); per step the
+    -- state of every quantizer and variable; at the end, per quantizer, the last value written to
+    -- it (lastWrite of its projected history) and the length of that history
+    let qsJ ← (← j.getObjVal? "qs").getArr?
+    let qs ← qsJ.toList.mapM qstateOfJson
+    let ws ← getRatList j "ws"
+    let opsJ ← (← j.getObjVal? "ops").getArr?
+    let ops ← opsJ.toList.mapM mopOfJson
+    let s0 : Sys := { q := fun i => qs.getD i default, w := fun k => ws.getD k 0 }
+    let nq := qs.length
+    let nw := ws.length
+    let mut s := s0
+    let mut out : Array Json := #[]
+    for o in ops do
+      s := s.step rd o
+      out := out.push (sysToJson rd s nq nw)
+    let fin := Sys.run rd s0 ops
+    let lw := (List.range nq).map fun b =>
+      match lastWrite (proj rd b s0 ops) with
+      | none => Json.null
+      | some v => ratToJson v
+    pure <| Json.mkObj [("steps", Json.arr out), ("final", sysToJson rd fin nq nw),
+      ("last_write", Json.arr lw.toArray),
+      ("own_history_len", Json.arr ((List.range nq).map fun b =>
+          Json.num ((proj rd b s0 ops).length : Int)).toArray)]
+  | "relu_noise" =>
+    -- the whole quantized_relu call from the INPUT: x_u, xq (relu_upper_bound pass included), and the
+    -- mix under several factor storages
+    let c ← reluCfgOfJson (← j.getObjVal? "cfg")
+    let form ← getStr j "form"
+    let stsJ ← (← j.getObjVal? "stores").getArr?
+    let sts ← stsJ.toList.mapM storeOfJson
+    let xs ← getRatList j "x"
+    let ste := form == "ste"
+    let t := Tie.even
+    pure <| Json.mkObj [
+      ("s", Json.arr (xs.map fun x => ratToJson (c.act x)).toArray),
+      ("q", Json.arr (xs.map fun x => ratToJson (qreluU t c x)).toArray),
+      ("ys", Json.arr (sts.map fun st =>
+          Json.arr (xs.map fun x => ratToJson (reluNoiseF rd t c st ste x)).toArray).toArray),
+      -- per storage: at how many inputs clipping the mixed result instead would give another value
+      -- (exact reading; information only)
+      ("clamp_after_differs", Json.arr (sts.map fun st =>
+          Json.num (((xs.filter fun x =>
+            reluNoiseClampAfter t c (st.asF rd) ste x != reluNoise t c (st.asF rd) ste x).length : Nat) : Int)).toArray)]
   | "getq" =>
     let layersJ ← (← j.getObjVal? "layers").getArr?
     let layers ← layersJ.toList.mapM layerOfJson
